@@ -32,6 +32,8 @@ MUTANTS = [
     ("m4", "models.py", "            return a.model_copy(update={\"cost\": -a.cost})\n\n        task_type = kwargs.get(\"task_type\", TaskType.MIN)\n        agents", "            return a.model_copy(update={\"fitness\": -a.cost})\n\n        task_type = kwargs.get(\"task_type\", TaskType.MIN)\n        agents", [P + "models.Population.__init__"], True),
     ("m2", "abstract.py", "        position = self._task.initial_solution(position)\n", "        position = self._task.initial_solution(position) if position is None else list(position)\n", [A + "_init_agent"], True),
     ("m31", "helpers.py", "    for i in parallel.as_completed(executors):\n        res.append(i.result())", "    for i in parallel.as_completed(executors):\n        res.append(i.result())\n        if len(res) > 5:\n            break", [H + "get_pool_results"], True),
+    ("m50", "abstract.py", "            (self._best_agent, ), (self._worst_agent, ) = special_agents(self._population, n_best=1, n_worst=1)\n\n            # stop when", "            self.optimization_step()\n            (self._best_agent, ), (self._worst_agent, ) = special_agents(self._population, n_best=1, n_worst=1)\n\n            # stop when", [A + "optimize"], True),
+    ("m51", "abstract.py", "rates=self._errors,", "rates=self._error_diffs,", [A + "optimize"], True),
     ("h60", "helpers.py", "    pop_new = population.copy()\n    pop_new.sort(", "    sorted_population = population.copy()\n    pop_new = sorted_population\n    pop_new.sort(", [H + "sort_by_cost"], False),
 ]
 RUNNER = r'''
